@@ -1,0 +1,34 @@
+//! Verification hooks (feature `verif`): read-only rendering of the dynamic state of `ChordsV2`.
+use super::*;
+use core::fmt::Write;
+
+impl<'a, T: std::fmt::Debug> ChordsV2<'a, T> {
+    pub fn verif_digest(&self, out: &mut String, since_cap: u16) {
+        let _ = write!(out, "(q=[");
+        for q in self.queue.iter() {
+            let _ = write!(out, "({:?},{}),", q.event, q.since.min(since_cap));
+        }
+        let _ = write!(out, "];ac=[");
+        for a in self.active_chords.iter() {
+            let _ = write!(
+                out,
+                "({},{:?},{:?},{:?},{:?},{}),",
+                a.coordinate,
+                a.remaining_keys_to_release,
+                a.participating_keys,
+                a.action,
+                a.status,
+                a.delay
+            );
+        }
+        let _ = write!(
+            out,
+            "];{},{},{},{},{});",
+            self.ticks_to_ignore_chord,
+            self.ticks_until_next_state_change,
+            self.prev_active_layer,
+            self.prev_queue_len,
+            self.next_coord.get()
+        );
+    }
+}
